@@ -516,6 +516,10 @@ func (cond *Condition) IntSliceValue() ([]int64, error) {
 
 func formatValue(v interface{}) string {
 	switch v := v.(type) {
+	case nil:
+		// the grammar spells the nil value "null"; "%v" would print "<nil>",
+		// which the receiving node cannot parse.
+		return "null"
 	case string:
 		return fmt.Sprintf("%q", v)
 	case []interface{}:
